@@ -1094,7 +1094,8 @@ impl CodegenContext {
                         self.with_scope(loop_scope, Some(block), |s| {
                             s.add_symbol(
                                 "index",
-                                s.symbol(expr.span, index, SymbolType::Constant),
+                                // 'index' has no definition site of its own (the loop count is not one)
+                                s.symbol(None, index, SymbolType::Constant),
                             )?;
                             let result = s.emit_tokens(&block.inner);
                             s.remove_symbol("index");
